@@ -189,7 +189,7 @@ def to_latex_document(F, fileorname, export_header=True, extra_text=""):
     # document opening
     output.write(latex_preamble)
     output.write("\\begin{document}\n")
-    title = F.header['description']
+    title = F.header.get('description', '')
     title = title.replace("_", "\\_")
     output.write("\\title{{{}}}\n".format(title))
     output.write("\\author{CNFgen formula generator}\n")
